@@ -57,9 +57,9 @@ func VerifC01_SyncAdChain() {
 		opts = append(opts, WithStopAdCid(stopGiven))
 	}
 	resync := verif_Bool("resync")
-	if resync {
-		opts = append(opts, WithAdsResync(true))
-	}
+	// the option is passed explicitly with either value, as callers that forward a
+	// configuration flag do (the other harnesses leave it out: the default)
+	opts = append(opts, WithAdsResync(resync))
 	headOpt := verif_Choose("headAdCid", -1, n-1) // -1: query the publisher
 	if headOpt >= 0 {
 		opts = append(opts, WithHeadAdCid(chain[headOpt]))
